@@ -46,7 +46,10 @@ CONSTANTS MACs, IPs, NoIP, NoProc,     \* MACs, IPs: sets of positive naturals (
           FrameTime,    \* time.Now() of the packet loop
           PurgeNow, OfflineD, PurgeD,
           Handlers,     \* TRUE: include the handler-flag processes
-          Fixed
+          Fixed,
+          NestedRLock   \* TRUE: a shape the code must not take -- notify's sibling scan read-locks the row again (an accessor
+                        \* that locks for itself, called under the caller's RLock): with Go's writer preference the inner
+                        \* RLock queues behind a pending Lock() and nothing moves any more; TLC must report the deadlock
 
 VARIABLES h6Mu, h6Closed,    \* Handler6.Mutex, Handler6.closed
           sessClosed,        \* Session.Close ran: closeChan and the notification channel C are closed
@@ -271,7 +274,9 @@ LoopNext ==
              /\ SetLoc(p, [loc[p] EXCEPT !.flag = TRUE]) /\ Goto(p, "ot_c") /\ UNCHANGED <<htab, mtab, nextH, nextM, row>>
      /\ UNCHANGED <<sess, HVars, Flags>>
   \* Notify -> notify: Row.RLock()
-  \/ /\ pc[p] = "nt_r" /\ RowRLock(p, loc[p].m, "nt_read") /\ UNCHANGED <<Data, sess, loc, HVars, Flags>>
+  \/ /\ pc[p] = "nt_r" /\ RowRLock(p, loc[p].m, IF NestedRLock THEN "nt_rr" ELSE "nt_read") /\ UNCHANGED <<Data, sess, loc, HVars, Flags>>
+  \* (NestedRLock) inner RLock(); RUnlock() of the same row while the outer read lock is held: admitted only if no writer waits
+  \/ /\ pc[p] = "nt_rr" /\ CanRowR(loc[p].m) /\ Goto(p, "nt_read") /\ UNCHANGED <<Data, sess, row, loc, HVars, Flags>>
   \* read phase: dirty? which siblings are offline and dirty?  RUnlock
   \/ /\ pc[p] = "nt_read"
      /\ LET h == loc[p].host
